@@ -186,6 +186,9 @@ def main():
         (r"^<Arc<(?:Vec<objects::Value>|Vec<u8>|HashMap<Key, objects::Value>)> as Deref>::deref$", lambda e, m, a: Ref({0: deref(e, a[0])[1]}, 0, ())),
         (r"^<Vec<objects::Value> as Deref>::deref$", lambda e, m, a: a[0]),
         (r"^core::slice::<impl \[objects::Value\]>::iter$", m_slice_iter),
+        (r"^<(i64|u64|f64|bool) as ToString>::to_string$", lambda e, m, a: ("display", m.group(1), deref(e, a[0]))),
+        (r"^<(?:std::string::)?String as (?:std::convert::)?Into<serde_json::Value>>::into$", lambda e, m, a: ("json", "String", [a[0]])),
+        (r"^<serde_json::Value as From<(?:std::string::)?String>>::from$", lambda e, m, a: ("json", "String", [a[0]])),
         (r"^<std::slice::Iter<'_, objects::Value> as Iterator>::map::<.*>$", m_iter_map),
         (r"^<std::slice::Iter<'_, objects::Value> as Iterator>::(?:flat_map|filter_map)::<.*>$", m_iter_flat_map),
         (r"^<(?:FlatMap|FilterMap|std::iter::FlatMap|std::iter::FilterMap)<std::slice::Iter<'_, objects::Value>, .*> as Iterator>::collect::<Vec<serde_json::Value>>$", m_collect_flat),
@@ -231,6 +234,8 @@ def main():
             return doc[1].split("::")[-1]
         return None
 
+    undecided = []
+
     def run(desc, value, child_results, judge):
         stats["scenarios"] += 1
         eng = engine()
@@ -250,6 +255,9 @@ def main():
                     samples.append(dict(desc, events=[list(x) for x in cur["events"]], result=res[1]))
         try:
             eng.explore(entry, None, on_path, [])
+        except Unsupported as u:
+            # a scenario that meets an unmodelled operation is undecided (never a pass); the other scenarios are still decided
+            undecided.append("%s: %s" % (json.dumps(desc), str(u)[:160]))
         except PanicFound as p:
             failures.append(dict(desc, problems=["panic reachable: %s" % p.msg]))
         for k in ("paths", "queries"):
@@ -364,6 +372,9 @@ def main():
         if os.environ.get("MIRSYM_TRACE"):
             import traceback
             traceback.print_exc()
+    if undecided:
+        status = 2
+        print("INCONCLUSIVE: %d scenarios undecided, e.g. unsupported: %s" % (len(undecided), undecided[0][:300]))
     if failures:  # a counterexample stands even if a later scenario met an unmodelled call (it is replayed natively anyway)
         status = 1
     out = {"functions_encoded": sorted(stats["functions"]), "scenarios": stats["scenarios"], "paths": stats["paths"], "paths_proved": stats["proved"],
